@@ -32,6 +32,22 @@ CHECKS = {
  "C14": dict(tech="property-based testing (proptest): metamorphic monotonicity on pairs (building, building + extra EL_INSITU production)",
              text="For generated buildings under the four regulatory factor sets, k_exp in [0,1], both load-matching modes and generated non-negative per-step PV increments (zero, exactly / half / more than the uncovered use), non-renewable primary energy, CO2 (steps A and B) and grid-delivered energy must not increase and, at k_exp=0, RER must not decrease. One known finding (KF-C14-rer-cogen-displaced) is excused by signature. Exploration.",
              note="RER clause under the denominator noise rule; known finding signature = used cogenerated electricity decreases.", ref="4/C14"),
+
+ "C05": dict(tech="property-based testing (proptest): parse generated files and compare with the generator's own lines; reference model of the completion; idempotence of normalize",
+             text="Generated component files dense in EAMBIENTE/TERMOSOLAR lines (several systems, ids negative/repeated, uses for all services, declared production none/partial/exact/surplus/orphan) are parsed: every declared CONSUMO/PRODUCCION/SALIDA line must be found unchanged (ids, tags, f32 values, comments), demands must equal the sum of their lines, the added production must equal max(0, use - declared) per carrier, system and step and nothing else may be added; surplus is exported and nothing is delivered by the grid; normalising twice equals once numerically. Exploration.",
+             note="AUX lines are C06's; numeric (not structural) comparison for idempotence, see DESIGN.", ref="4/C05"),
+ "C06": dict(tech="property-based testing (proptest): reference model of the auxiliary split computed from the generated lines, checked after parsing and through the balance",
+             text="For generated files with up to 5 auxiliary-bearing systems (single-service, multi-service with positive/negative/zero outputs, several AUX and SALIDA lines, electricity otherwise present or absent) the parsed AUX components are compared with a model: conservation per system and step, no negative share, EPB services only, single-service rule, output-magnitude proportions; then the electricity balance's EPB use per step and per service must equal CONSUMO + the split, also when AUX is the only electricity. Exploration.",
+             note="Systems are assignable by construction; where all outputs are zero only conservation and sign are required.", ref="4/C06"),
+ "C07": dict(tech="property-based testing (proptest): generated factor files / locations / user factors, oracle = rules of the statement evaluated on the prepared set plus a building over its carriers",
+             text="Generated user factor files (subsets of carriers, export and on-site lines present or absent, duplicates, shuffled, distinct values) and the four locations, with user RED1/RED2 given or not: kept lines bit-identical through find(), forced keys (1,0,0), step A/B export defaults, RED precedence, no MissingFactor when evaluating a generated building over the set's carriers, idempotence of normalize and of re-preparing the printed set, and rejection of unusable sets. Exploration.",
+             note="Usable sets always contain the electricity grid factor; no COGEN-source lines.", ref="4/C07"),
+ "C13": dict(tech="property-based testing (proptest): invariants on RER values over generated buildings under regulatory factors at k_exp = 0",
+             text="RER must equal ren/(ren+nren) of the reported step B energy, lie in [0,1], and 0 <= RER_onst <= RER_nrb <= RER whenever total primary energy is above rounding noise; all three must be 0 when the total is exactly 0. Three known findings (export of on-site / cogenerated electricity not netted by origin) are excused by signature and counted. Exploration.",
+             note="Ratio tolerance and noise rule of DESIGN 3.4; signatures of known findings are predicates on exported flows and declared cogeneration inputs.", ref="4/C13"),
+ "C15": dict(tech="property-based testing (proptest): DHW grammar with closed-form oracle, error-class parity and metamorphic invariances",
+             text="A dedicated grammar builds DHW supply mixes (direct electric, heat pump incl. low-SCOP exclusion, solar thermal, RED1/RED2 with user factors, fossil boiler, biomass with/without SALIDA) with consistent, absent or zero demand, shared PV, auxiliaries, other services and nEPB uses; the reported fraction must match the f64 closed form, lie in [0,1], report the documented errors (and error_acs in misc) in the non-computable classes, and be invariant under added nEPB lines, added non-electric lines of other services, another k_exp and scaling by 2^k (also with cogeneration present). Exploration.",
+             note="Closed form validated against the library on >100k cases; tolerance 1e-4 plus f32 noise term proportional to DHW inputs / demand.", ref="4/C15"),
 }
 PENDING = {}
 TITLES = {}
